@@ -63,6 +63,8 @@ const c18ReplyTopic = "replies"
 type c18Step struct {
 	Res     string `json:"res"`
 	Fail    bool   `json:"fail"`    // the handler returns an error ...
+	ErrKind int    `json:"errkind"` // ... of this kind: 0 errors.New(text), 1 wrapping a base error, 2 context.Canceled, 3 context.DeadlineExceeded,
+	// 4 its own ctx.Err() after its (= the message's) context was cancelled, 5 an error wrapping that, 6 its own ctx.Err() after its context timed out
 	Err     string `json:"err"`     // ... with this text (the empty text is a legal error text)
 	PubFail bool   `json:"pubfail"` // the reply publisher fails for this delivery
 	Swallow bool   `json:"swallow"` // ReplyPublishErrorHandler (if configured) returns nil
@@ -88,15 +90,17 @@ type c18Reply struct {
 }
 
 type c18Delivery struct {
-	K      int             `json:"k"`
-	Op     int             `json:"op"`     // op id metadata of the command message
-	Res    int             `json:"res"`    // interned result
-	HasErr bool            `json:"haserr"` // the handler returned an error
-	Err    int             `json:"err"`    // interned error text (0 = "")
-	Nid    int             `json:"nid"`    // uuid of the published notification (0 if none)
-	Enc    [2]int          `json:"enc"`    // harness json.Marshal(result): res id -> payload id (-1 = error)
-	Step   c18Step         `json:"step"`
-	Events [][]interface{} `json:"events"`
+	K        int             `json:"k"`
+	Op       int             `json:"op"`     // op id metadata of the command message
+	Res      int             `json:"res"`    // interned result
+	HasErr   bool            `json:"haserr"` // the handler returned an error
+	ErrKind  int             `json:"errkind"`
+	CtxState int             `json:"ctxstate"` // handler context when it returned: 0 live, 1 cancelled, 2 timed out
+	Err      int             `json:"err"`      // interned error text (0 = "")
+	Nid      int             `json:"nid"`      // uuid of the published notification (0 if none)
+	Enc      [2]int          `json:"enc"`      // harness json.Marshal(result): res id -> payload id (-1 = error)
+	Step     c18Step         `json:"step"`
+	Events   [][]interface{} `json:"events"`
 }
 
 type c18Req struct {
@@ -419,9 +423,43 @@ func (w *c18World) handle(ctx context.Context, cmd *c18Cmd) (c18Res, error) {
 	} else {
 		d.Res = w.resID(struct{}{})
 	}
-	d.HasErr = step.Fail
+	var herr error
 	if step.Fail {
-		d.Err = w.errID(step.Err)
+		ctl, _ := ctx.Value(c18CtlKey{}).(*c18CtxCtl)
+		switch step.ErrKind {
+		case 1:
+			herr = fmt.Errorf("%s: %w", step.Err, errors.New("base cause"))
+		case 2:
+			herr = context.Canceled
+		case 3:
+			herr = context.DeadlineExceeded
+		case 4, 5:
+			if ctl != nil {
+				ctl.cancel()
+				d.CtxState = 1
+			}
+			herr = ctx.Err()
+			if herr == nil {
+				herr = context.Canceled
+			}
+			if step.ErrKind == 5 {
+				herr = fmt.Errorf("interrupted: %w", herr)
+			}
+		case 6:
+			select {
+			case <-ctx.Done():
+				d.CtxState = 2
+			case <-time.After(2 * time.Second):
+			}
+			herr = ctx.Err()
+			if herr == nil {
+				herr = context.DeadlineExceeded
+			}
+		default:
+			herr = errors.New(step.Err)
+		}
+		d.HasErr, d.ErrKind = true, step.ErrKind
+		d.Err = w.errID(herr.Error())
 	}
 	if orig != nil {
 		d.Op = w.opID(orig.Metadata.Get(requestreply.OperationIDMetadataKey))
@@ -487,9 +525,48 @@ func (w *c18World) handle(ctx context.Context, cmd *c18Cmd) (c18Res, error) {
 		}
 	}
 	if step.Fail {
-		return res, errors.New(step.Err)
+		return res, herr
 	}
 	return res, nil
+}
+
+// router middleware: every message gets a cancellable context of its own (what middleware.Timeout, a closing
+// router or a subscriber going away do to a handler); a handler scripted to fail with its context's own error
+// cancels it through c18CtxCtl, or finds it already running out
+type c18CtlKey struct{}
+type c18CtxCtl struct{ cancel func() }
+
+func (w *c18World) ctxMiddleware(h message.HandlerFunc) message.HandlerFunc {
+	return func(msg *message.Message) ([]*message.Message, error) {
+		timedOut := false
+		var id struct {
+			ID string `json:"id"`
+		}
+		if json.Unmarshal(msg.Payload, &id) == nil {
+			w.mu.Lock()
+			req := w.byID[id.ID]
+			w.mu.Unlock()
+			if req != nil {
+				req.mu.Lock()
+				k := req.nDeliv
+				if k >= len(req.Steps) {
+					k = len(req.Steps) - 1
+				}
+				timedOut = req.Steps[k].Fail && req.Steps[k].ErrKind == 6
+				req.mu.Unlock()
+			}
+		}
+		var ctx context.Context
+		var cancel func()
+		if timedOut {
+			ctx, cancel = context.WithTimeout(msg.Context(), 300*time.Microsecond)
+		} else {
+			ctx, cancel = context.WithCancel(msg.Context())
+		}
+		defer cancel()
+		msg.SetContext(context.WithValue(ctx, c18CtlKey{}, &c18CtxCtl{cancel: cancel}))
+		return h(msg)
+	}
 }
 
 // ---------------------------------------------------------------- backend wrappers (remember the reply channel)
@@ -925,6 +1002,7 @@ func c18RunScenario(rt *hookrt.Runtime, sc *c18Scenario, in *script.Interner) er
 	if err != nil {
 		return err
 	}
+	router.AddMiddleware(w.ctxMiddleware)
 	marshaler := cqrs.JSONMarshaler{}
 	bus, err := cqrs.NewCommandBusWithConfig(w.pubsub, cqrs.CommandBusConfig{
 		GeneratePublishTopic: func(p cqrs.CommandBusGeneratePublishTopicParams) (string, error) {
@@ -1222,6 +1300,14 @@ func c18ErrText(rng *rand.Rand, id string, k int) string {
 	}
 }
 
+// which error VALUE a failing handler returns: mostly a plain error, the context-flavoured ones over-weighted
+func c18ErrKind(rng *rand.Rand) int {
+	if rng.Intn(2) == 0 {
+		return 0
+	}
+	return rng.Intn(7)
+}
+
 func c18GenReq(rng *rand.Rand, sc *c18Scenario, id string, forceLeak int) *c18Req {
 	req := &c18Req{ID: id}
 	n := 1 + rng.Intn(3)
@@ -1242,15 +1328,15 @@ func c18GenReq(rng *rand.Rand, sc *c18Scenario, id string, forceLeak int) *c18Re
 				st.PubFail = true
 				st.Swallow = false
 				if rng.Intn(2) == 0 {
-					st.Fail, st.Err = true, c18ErrText(rng, id, k)
+					st.Fail, st.Err, st.ErrKind = true, c18ErrText(rng, id, k), c18ErrKind(rng)
 				}
 			} else {
-				st.Fail, st.Err = true, c18ErrText(rng, id, k)
+				st.Fail, st.Err, st.ErrKind = true, c18ErrText(rng, id, k), c18ErrKind(rng)
 			}
 		} else {
 			// must end in an Ack
 			if sc.AckErrors && rng.Intn(2) == 0 {
-				st.Fail, st.Err = true, c18ErrText(rng, id, k)
+				st.Fail, st.Err, st.ErrKind = true, c18ErrText(rng, id, k), c18ErrKind(rng)
 			}
 			if sc.HasErrH && rng.Intn(4) == 0 {
 				st.PubFail = true
